@@ -282,6 +282,8 @@ fn parse_command_line<'a>(args: impl Iterator<Item = &'a str>) -> CommandLine {
             last_arg = Some(s);
         } else if s == "--" {
             after_double_dash = true;
+        } else if s == "--word-diff=none" {
+            // (switches word diff off: as if the option were not there)
         } else if s.starts_with("--") {
             long_options.insert(s.split('=').next().unwrap().to_owned());
         } else if let Some(suffix) = s.strip_prefix('-') {
